@@ -26,7 +26,7 @@ cabd_merge / cabd_can_merge_folders / cabd_sys_read_block):
   once, normally.
 """
 import struct
-from . import deflate, lz, lzx, qtm, hist_add, pick_size
+from . import deflate, lz, lzx, qtm, pick_size
 
 FROM_PREV, TO_NEXT, PREV_AND_NEXT = 0xFFFD, 0xFFFE, 0xFFFF
 NONE, MSZIP, QUANTUM, LZX = 0, 1, 2, 3
@@ -80,6 +80,52 @@ def build_cab(folders, files, set_id=0, set_index=0, reserve=None, prev=None, ne
     return hdr + ext + fold + fent + data
 
 
+def parse(d):
+    """cabinet bytes -> dict (inverse of build_cab, for tests and fixtures)"""
+    _, _, size, _, foff, _, vmin, vmaj, nfold, nfiles, flags, setid, idx = struct.unpack_from('<4sIIIIIBBHHHHH', d); p = 36
+    hres = b''; fres = dres = 0
+    if flags & 4: n, fres, dres = struct.unpack_from('<HBB', d, p); hres = d[p + 4:p + 4 + n]; p += 4 + n
+
+    def z():
+        nonlocal p
+        e = d.index(b'\0', p); s = d[p:e]; p = e + 1; return s
+    prev = (z(), z()) if flags & 1 else None; nxt = (z(), z()) if flags & 2 else None
+    folders = []
+    for _ in range(nfold):
+        off, nb, ct = struct.unpack_from('<IHH', d, p); folders.append({'comp': ct, 'blocks': [], 'reserve': d[p + 8:p + 8 + fres], '_': (off, nb)}); p += 8 + fres
+    files = []
+    for _ in range(nfiles):
+        ln, fo, fi, dt, tm, at = struct.unpack_from('<IIHHHH', d, p); p += 16
+        files.append({'name': z(), 'length': ln, 'offset': fo, 'folder': fi, 'date': ((dt >> 9) + 1980, dt >> 5 & 15, dt & 31),
+                      'time': (tm >> 11, tm >> 5 & 63, (tm & 31) * 2), 'attribs': at})
+    for f in folders:
+        q, nb = f.pop('_')
+        for _ in range(nb):
+            ck, cl, ul = struct.unpack_from('<IHH', d, q); f['blocks'].append((d[q + 8 + dres:q + 8 + dres + cl], ul)); q += 8 + dres + cl
+    return {'folders': folders, 'files': files, 'set_id': setid, 'set_index': idx, 'flags': flags, 'version': (vmin, vmaj),
+            'reserve': (hres, fres, dres) if flags & 4 else None, 'prev': prev, 'next': nxt, 'size': size}
+
+
+def join_set(cabs):
+    """parsed cabinets of a split set -> (logical folders, files, cuts) as build_set takes them"""
+    lf = []; cuts = []; files = []; seen = set(); open_split = False
+    for i, c in enumerate(cabs):
+        base = len(lf) - (1 if open_split else 0)
+        for k, fo in enumerate(c['folders']):
+            if k or not open_split:
+                if not k and i: cuts.append(('folder', len(lf)))
+                lf.append({'comp': fo['comp'], 'blocks': []})
+            for pl, ul in fo['blocks']:
+                bl = lf[-1]['blocks']
+                if bl and bl[-1][1] == 0: cuts.append(('block', len(lf) - 1, len(bl) - 1, len(bl[-1][0]))); bl[-1] = (bl[-1][0] + pl, ul)
+                else: bl.append((pl, ul))
+        open_split = lf[-1]['blocks'][-1][1] == 0
+        for f in c['files']:
+            j = base if f['folder'] in (FROM_PREV, PREV_AND_NEXT) else len(lf) - 1 if f['folder'] == TO_NEXT else base + f['folder']
+            if (f['name'], j) not in seen: seen.add((f['name'], j)); files.append(dict(f, folder=j))
+    return lf, files, cuts
+
+
 def build_set(folders, files, cuts, names, **kw):
     """split the logical cabinet (files[i]['folder'] = folder index, files sorted
     by folder then offset) into len(cuts)+1 cabinets.  cuts (in stream order):
@@ -92,9 +138,10 @@ def build_set(folders, files, cuts, names, **kw):
     for j, fo in enumerate(folders):
         part += sum(1 for c in cuts if c[0] == 'folder' and c[1] == j)
         span[j] = [part, part]; ustart = 0
+        parts[part].append((j, []))                # the folder starts here even if it has no blocks
 
         def add(piece, u):
-            if not parts[part] or parts[part][-1][0] != j: parts[part].append((j, []))
+            if parts[part][-1:] == [] or parts[part][-1][0] != j: parts[part].append((j, []))
             parts[part][-1][1].append((piece, u))
         for b, (payload, usize) in enumerate(fo['blocks']):
             prevc = 0
@@ -181,16 +228,20 @@ def _cut_points(rng, n):
     return rng.randint(0, n)
 
 
-def random_case(rng, size='small', folders=None, comp=None, parts=None, embed=None, **_):
-    """random cabinet, split set or (embed) blob with cabinets for search()"""
+def random_case(rng, size='small', folders=None, comp=None, parts=None, embed=None, avoid_defects=False, **_):
+    """random cabinet, split set or (embed) blob with cabinets for search().
+    Cases predicted to trip a known defect of the pinned libmspack are listed in
+    meta['quirks'] / meta['hidden_by_find_defect'] (a few are made on purpose);
+    avoid_defects=True generates none of them."""
     if embed is None: embed = rng.random() < 0.08
     if embed:
         blob = b''; members = []; sub = []; hidden = []
         for k in range(rng.randint(1, 3)):
-            c = random_case(rng, 'small', parts=1, embed=False)
+            c = random_case(rng, 'small', parts=1, embed=False, avoid_defects=avoid_defects)
             junk = rng.randbytes(rng.choice([0, 1, 5, 300])) + rng.choice([b'', b'', b'', b'M', b'MS', b'MSC'])
-            if junk.endswith((b'M', b'MS', b'MSC')): hidden.append(k)
-            else: members += c['members']
+            if avoid_defects: junk = junk.rstrip(b'MSC')
+            if junk.endswith((b'M', b'MS', b'MSC')): hidden.append(k)     # cabd_find defect in the pinned library
+            members += [dict(m, cab=k) for m in c['members']]
             blob += junk + c['files'][c['meta']['order'][0]]; sub.append(c['meta'])
         blob += rng.randbytes(rng.choice([0, 0, 7, 40]))
         return {'kind': 'cab', 'files': {'blob.bin': blob}, 'members': members,
@@ -200,8 +251,15 @@ def random_case(rng, size='small', folders=None, comp=None, parts=None, embed=No
     lf = []; files = []; members = []; used = set(); fmeta = []; quirks = []
     for j, n in enumerate(sizes):
         c = comp if comp is not None else rng.choice([NONE, MSZIP, MSZIP, QUANTUM, LZX, LZX])
-        word, blocks, plain, m = make_folder(rng, n, c, odd_blocks=rng.random() < 0.2)
-        cuts = sorted(_cut_points(rng, n) for _ in range(rng.choice([0, 0, 1, 2, 4])))
+        while True:
+            word, blocks, plain, m = make_folder(rng, n, c, odd_blocks=rng.random() < 0.2)
+            d1 = c == LZX and len(blocks) > 1 and blocks[-1][1] < 32768 and sum(len(p) for p, _ in blocks[:-1]) % 4096 == 0
+            if not (d1 and avoid_defects): break
+        cuts = [_cut_points(rng, n) for _ in range(rng.choice([0, 0, 1, 2, 4]))]
+        wraps = m.pop('wraps', [])
+        if wraps and not avoid_defects and rng.random() < 0.15: p, w = rng.choice(wraps); cuts.append(rng.randint(p + 1, w - 1))
+        if avoid_defects: cuts = [x for x in cuts if not any(p < x < w for p, w in wraps)]
+        cuts.sort()
         for k in range(rng.choice([0, 0, 0, 1, 2])): cuts.insert(rng.randint(0, len(cuts)), None)   # zero-length files
         pos = 0; spans = []
         for cpt in cuts + [n]:
@@ -214,12 +272,8 @@ def random_case(rng, size='small', folders=None, comp=None, parts=None, embed=No
                  'time': (rng.getrandbits(5), rng.getrandbits(6), 2 * rng.getrandbits(5))}
             files.append(f); members.append(dict(f, data=plain[off:off + ln]))
         m['members'] = len(spans)
-        if c == QUANTUM and m.get('wraps'):
-            ends = [o + l for o, l in spans[:-1]]
-            if any(p < e < w for p, w in m['wraps'] for e in ends): quirks.append('qtm-wrap-request:folder%d' % j)
-        m.pop('wraps', None)
-        if c == LZX and len(blocks) > 1 and blocks[-1][1] < 32768 and sum(len(p) for p, _ in blocks[:-1]) % 4096 == 0:
-            quirks.append('lzx-last-frame-buffer:folder%d' % j)
+        if any(p < o + l < w for p, w in wraps for o, l in spans[:-1]): quirks.append('qtm-wrap-request:folder%d' % j)
+        if d1: quirks.append('lzx-last-frame-buffer:folder%d' % j)
         lf.append({'comp': word, 'blocks': blocks}); fmeta.append(m)
     resv = None
     if rng.random() < 0.4: resv = (rng.randbytes(rng.choice([0, 4, 20, 300])), rng.choice([0, 1, 8, 50]), rng.choice([0, 2, 10]))
